@@ -20,7 +20,10 @@ def run_one(sid, props):
             env = dict(os.environ, VERIF_REPO=tmp, VERIF_EVID=os.path.join(tmp, 'evidence'))
             r = subprocess.run(['python3', '-m', 'vf.check', prop], cwd=VERIF, env=env, capture_output=True, text=True)
             lines = [l for l in r.stdout.split('\n') if l.startswith(('VIOLATION', 'UNDECIDED'))]
-            res[prop] = (r.returncode, lines[:3])
+            nb = sum(1 for l in lines if l.startswith('VIOLATION') and ' bounded=' in l)
+            nc = sum(1 for l in lines if l.startswith('VIOLATION') and ' unit=' in l)
+            first_c = [l for l in lines if l.startswith('VIOLATION') and ' unit=' in l][:2]
+            res[prop] = (r.returncode, 'contract=%d bounded=%d' % (nc, nb), first_c + [l for l in lines if l not in first_c][:3])
         return sid, res
     finally:
         shutil.rmtree(tmp, ignore_errors=True)
